@@ -2,12 +2,12 @@
 (***************************************************************************)
 (* Conformance of the real high-level encoders with the encoder models     *)
 (* (spec -> code and code -> spec at once): harness/cmd/encdump enumerates  *)
-(* the state space of MC_PDFText / MC_AztecHL / MC_Code128 / MC_DM - every string   *)
+(* the state space of MC_PDFText / MC_AztecHL / MC_Code128 / MC_DM / MC_QREnc - every string   *)
 (* up to a length bound over the model's representative alphabet - calls   *)
 (* the real pdf417.highlevelEncode / aztec.highlevelEncode /               *)
 (* code128.getCodeIndexList through the verif accessors and records what   *)
 (* they return.  Each recorded output is compared with what the encoder    *)
-(* model (PDFTextEnc, AztecHLEnc, Code128Enc, DMEnc) emits for the same string:   *)
+(* model (PDFTextEnc, AztecHLEnc, Code128Enc, DMEnc, QREnc) emits for the same string:   *)
 (*   equal     -> the code took exactly the model's transition sequence;   *)
 (*                the model's RoundTrip invariant (checked by TLC for the  *)
 (*                same state space) covers this execution;                 *)
@@ -25,6 +25,7 @@ P == INSTANCE PDFTextEnc WITH PadFix <- TRUE
 A == INSTANCE AztecHLEnc WITH BSFix <- TRUE
 C == INSTANCE Code128Enc
 D == INSTANCE DMEnc
+Q == INSTANCE QREnc
 
 Trace == ndJsonDeserialize("trace.ndjson")
 N == Len(Trace)
@@ -56,6 +57,15 @@ Tag(e) ==
          IF ~e.ok THEN "hl-wrong"
          ELSE IF e.out = D!AddPadding(cw, Len(cw) + e.pad) THEN ""
          ELSE LET a == D!Ascii(e.out) IN IF a.ok /\ ~a.shift /\ a.out = e.content /\ (a.pad <=> e.pad > 0) THEN "drift" ELSE "hl-wrong"
+    [] e.sym = "qr" ->       \* out = data bit stream, v = version chosen, p = <<level, API mode>>
+         LET rep == Q!Representable(e.content, e.p[1], e.p[2]) IN
+         IF ~e.ok THEN (IF rep THEN "hl-wrong" ELSE "")
+         ELSE IF ~rep THEN "hl-wrong"
+         ELSE LET m == Q!Enc(e.content, e.p[1], e.p[2]) IN
+              IF e.out = m.bits /\ e.v = m.v THEN ""
+              ELSE IF e.v \in 1..40 /\ Len(e.out) = 8 * Q!DataCW(e.v, e.p[1])
+                      /\ LET p == Q!Parse(e.out, e.v, 0, <<>>, <<>>) IN p.ok /\ p.out = e.content
+                   THEN "drift" ELSE "hl-wrong"
     [] OTHER -> "unknown-event"
 
 Step ==
